@@ -1,5 +1,6 @@
 """Pure operations on symbolic values shared by the code executor and the spec evaluator."""
 import ast
+import os
 import z3
 from . import ty as T
 from . import values as V
@@ -207,17 +208,14 @@ def set_binop(kind, a, b, facts):
         a = V.dict_keys(a)
     if a.ty != b.ty:
         raise UnsupportedError(f"set operation on {a.ty} and {b.ty}")
-    r = fresh_set_like(a, {"difference": "Sdiff", "intersection": "Sint", "union": "Suni"}[kind])
-    (es,) = a.ty.elem.sorts()
-    x = z3.Const(V.fresh_name("qx"), es)
-    ax, bx, rx = z3.Select(a.t, x), z3.Select(b.t, x), z3.Select(r.t, x)
+    # z3's extensional-array combinators: a term, not a fresh constant with a defining axiom, so the
+    # operation can be used under a quantifier of a contract clause (the operands may mention the bound variable)
     if kind == "difference":
-        body = rx == z3.And(ax, z3.Not(bx))
+        r = Val(a.ty, [z3.SetDifference(a.t, b.t)])
     elif kind == "intersection":
-        body = rx == z3.And(ax, bx)
+        r = Val(a.ty, [z3.SetIntersect(a.t, b.t)])
     else:
-        body = rx == z3.Or(ax, bx)
-    facts.append(z3.ForAll([x], body))
+        r = Val(a.ty, [z3.SetUnion(a.t, b.t)])
     facts.extend(facts_for_card(r))
     if kind in ("difference", "intersection"):
         facts.append(V.set_card(r) <= V.set_card(a))
@@ -230,6 +228,9 @@ def set_binop(kind, a, b, facts):
         facts.append(V.set_card(r) >= V.set_card(a))
         facts.append(V.set_card(r) >= V.set_card(b))
         facts.append(V.set_card(r) <= V.set_card(a) + V.set_card(b))
+        inter = Val(a.ty, [z3.SetIntersect(a.t, b.t)])           # inclusion-exclusion (finite-set lemma schema)
+        facts.append(V.set_card(r) + V.set_card(inter) == V.set_card(a) + V.set_card(b))
+        facts.extend(facts_for_card(inter))
     return r
 
 
@@ -240,6 +241,8 @@ def set_subset(a, b):
         b = V.dict_keys(b)
     if V.is_empty_literal(b):
         return z3.Not(truth(a))
+    if os.environ.get("VERIF_SUBSET_NATIVE") == "1":
+        return z3.IsSubset(a.t, b.t)          # combinatory array logic: decided by z3's array theory, no quantifier to instantiate
     (es,) = a.ty.elem.sorts()
     x = z3.Const(V.fresh_name("qx"), es)
     return z3.ForAll([x], z3.Implies(z3.Select(a.t, x), z3.Select(b.t, x)))
